@@ -31,9 +31,11 @@ def run(ctx):
         s3, _ = ctx.run_vh(["screen", "--charset", cs, "--mix", "legacy", "--terms", "xterm-256color,vt100,linux,vt220", "--random", 3 if q else 20,
                             "--ops", 30, "--seed", ctx.seed + 100 + k, "--out", tf], timeout=3000)
         r3 = ctx.validate_parallel("TScreenTrace", tf, parts=4 if q else 8, expect_events=s3.get("events"), timeout=3400)
-        mine = [d for d in r3["devs"] if d["tag"].startswith("C09.")]
+        mine = [d for d in r3["devs"] if d["tag"].startswith("C09.") or d["tag"] == "C01.cell"]
         for d in mine:
             d["charset"] = cs
+            if d["tag"] == "C01.cell":      # bytes that are not the cell's own encoding have reached the display
+                d["tag"] = "C09.stray_or_wrong_bytes"
         ctx.add_violations(mine, tf)
         events += r3["lines"]
     ctx.cov["code_point_cells_swept"] = swept
